@@ -17,7 +17,8 @@ open PF PF.Map PF.Validate
 
 /-- what `PipeFunc(...)` refuses -/
 def FuncFault (f : MFunc) : Prop :=
-  selfNamed f = true ∨ mapspecInputNotParam f = true ∨ mapspecInputBound f = true ∨ mapspecOutputSetDiffers f = true
+  selfNamed f = true ∨ mapspecInputNotParam f = true ∨ mapspecInputBound f = true ∨ mapspecOutputSetDiffers f = true ∨
+  mapspecMalformed f = true
 
 /-- what `Pipeline._validate` refuses -/
 def PipelineFault (gs : List MFunc) : Prop :=
@@ -40,13 +41,13 @@ theorem C12_construct_iff (fs : List MFunc) : Refused (construct fs) ↔ IllForm
     simp only [not_or, not_exists, not_and, Bool.not_eq_true, Bool.not_eq_false] at hn
     refine ⟨fun f hf => ?_, fun pre f post hs => ?_⟩
     · have := hn.1 f hf
-      exact ⟨this.1, this.2.1, this.2.2.1, this.2.2.2⟩
+      exact ⟨this.1, this.2.1, this.2.2.1, this.2.2.2.1, this.2.2.2.2⟩
     · have := hn.2 pre f post hs
       exact ⟨this.1, this.2.1, this.2.2.1, this.2.2.2.1, this.2.2.2.2⟩
   · intro h hok
     rcases h with ⟨f, hf, hfault⟩ | ⟨pre, f, post, hs, hfault⟩
     · have := hok.1 f hf
-      rcases hfault with h | h | h | h <;> simp_all
+      rcases hfault with h | h | h | h | h <;> simp_all
     · have := hok.2 pre f post hs
       rcases hfault with h | h | h | h | h <;> simp_all
 
@@ -110,6 +111,20 @@ theorem C12_reject_mapspec_signature (fs : List MFunc) (f : MFunc) (hf : f ∈ f
     simp only [List.any_eq_true]
     exact ⟨f, hf, by simp [mapspecOutputOrderDiffers, hms, hne]⟩
 
+/-- **A malformed MapSpec** (`MapSpec.__post_init__`): an output axis that is `:`, two outputs with different indices, or an
+    input index that the output does not carry. -/
+theorem C12_reject_mapspec_malformed (fs : List MFunc) (f : MFunc) (hf : f ∈ fs) (ms : MSpec) (hms : f.mapspec = some ms)
+    (h : (∃ o ∈ ms.outputs, none ∈ o.axes) ∨
+         (∃ o ∈ ms.outputs.drop 1, o.axes.filterMap id ≠ (ms.outputs.headD default).axes.filterMap id) ∨
+         (∃ i ∈ ms.inputIndices, i ∉ ms.outputIndices)) : Refused (construct fs) := by
+  rw [C12_construct_iff]
+  refine Or.inl ⟨f, hf, Or.inr (Or.inr (Or.inr (Or.inr ?_)))⟩
+  simp only [mapspecMalformed, hms, Bool.or_eq_true, List.any_eq_true, Bool.not_eq_eq_eq_not, Bool.not_true, List.all_eq_false]
+  rcases h with ⟨o, ho, hn⟩ | ⟨o, ho, hne⟩ | ⟨i, hi, hn⟩
+  · exact Or.inl (Or.inl ⟨o, ho, none, hn, rfl⟩)
+  · exact Or.inl (Or.inr ⟨o, ho, by simpa using hne⟩)
+  · exact Or.inr ⟨i, hi, by simpa [List.contains_iff_mem] using hn⟩
+
 /-- **MapSpecs that disagree with each other about an array's axes**: two specs of the same array with different ranks, or with
     different names for the same axis. -/
 theorem C12_reject_axes (fs : List MFunc) (a b : ASpec) (ha : a ∈ allSpecs fs) (hb : b ∈ allSpecs fs) (hn : a.name = b.name)
@@ -157,12 +172,15 @@ theorem C12_axes_disagree_iff (xs ys : List (Option String)) :
 
 /-! ### the start of `map` -/
 
-/-- what `prepare_run` / `RunInfo.create` refuse, as a disjunction of the named checks -/
+/-- what `prepare_run` / `RunInfo.create` refuse, as a disjunction of the named checks (in the code's order) -/
 def MapFault (fs : List MFunc) (r : Req) : Prop :=
   (r.executor = true ∧ r.parallel = false) ∨
+  (∃ ns, r.outputNames = some ns ∧ ∃ n ∈ ns, n ∉ nodeNames fs) ∨
   Refused (validateInputs fs r.inputs) ∨
   axesConsistent fs = false ∨
-  r.storage ∉ storageRegistry ∨
+  Refused (PF.Pieces.validateFixed fs (normInputs r.inputs) r.fixed) ∨
+  (∃ n ∈ r.storage.names, n ∉ storageRegistry) ∨
+  (∃ f, f ∈ storageUnresolved fs r.storage) ∨
   (r.folder = true ∧ r.cleanup = false ∧ ∃ p, r.prev = some p ∧ Refused (comparePrev fs r p)) ∨
   listForNd fs r.inputs = true ∨
   Refused (shapesOf fs r.inputs r.internal)
@@ -171,40 +189,90 @@ def MapFault (fs : List MFunc) (r : Req) : Prop :=
 theorem C12_startMap_iff (fs : List MFunc) (r : Req) : Refused (startMap fs r).2 ↔ MapFault fs r := by
   rw [startMap, refused_exec_iff]
   unfold MapFault
-  rw [← checkExecutor_refused, ← checkStorage_refused, ← checkInputs_refused, ← axesStep_refused,
-    ← ofMap_refused "complete-inputs" (validateInputs fs r.inputs), ← ofMap_refused "map-shapes" (shapesOf fs r.inputs r.internal)]
+  rw [← checkExecutor_refused, ← checkStorage_refused, ← checkInputs_refused, ← axesStep_refused, ← checkOutputNames_refused,
+    ← checkStorageDefault_refused,
+    ← ofMap_refused "complete-inputs" (validateInputs fs r.inputs), ← ofMap_refused "map-shapes" (shapesOf fs r.inputs r.internal),
+    ← ofMap_refused "fixed-indices" (PF.Pieces.validateFixed fs (normInputs r.inputs) r.fixed)]
   constructor
   · rintro ⟨n, res, hm, hr⟩
-    rcases (check_mem_startSteps fs r n res).mp hm with ⟨_, rfl⟩ | ⟨_, rfl⟩ | ⟨_, rfl⟩ | ⟨_, rfl⟩ | ⟨hf, hc, p, hp, _, rfl⟩ | ⟨_, rfl⟩ | ⟨_, rfl⟩
+    rcases (check_mem_startSteps fs r n res).mp hm with
+      ⟨_, rfl⟩ | ⟨_, rfl⟩ | ⟨_, rfl⟩ | ⟨_, rfl⟩ | ⟨_, rfl⟩ | ⟨_, rfl⟩ | ⟨_, rfl⟩ | ⟨hf, hc, p, hp, _, rfl⟩ | ⟨_, rfl⟩ | ⟨_, rfl⟩
     · exact Or.inl hr
     · exact Or.inr (Or.inl hr)
     · exact Or.inr (Or.inr (Or.inl hr))
     · exact Or.inr (Or.inr (Or.inr (Or.inl hr)))
-    · exact Or.inr (Or.inr (Or.inr (Or.inr (Or.inl ⟨hf, hc, p, hp, hr⟩))))
+    · exact Or.inr (Or.inr (Or.inr (Or.inr (Or.inl hr))))
     · exact Or.inr (Or.inr (Or.inr (Or.inr (Or.inr (Or.inl hr)))))
-    · exact Or.inr (Or.inr (Or.inr (Or.inr (Or.inr (Or.inr hr)))))
+    · exact Or.inr (Or.inr (Or.inr (Or.inr (Or.inr (Or.inr (Or.inl hr))))))
+    · exact Or.inr (Or.inr (Or.inr (Or.inr (Or.inr (Or.inr (Or.inr (Or.inl ⟨hf, hc, p, hp, hr⟩)))))))
+    · exact Or.inr (Or.inr (Or.inr (Or.inr (Or.inr (Or.inr (Or.inr (Or.inr (Or.inl hr))))))))
+    · exact Or.inr (Or.inr (Or.inr (Or.inr (Or.inr (Or.inr (Or.inr (Or.inr (Or.inr hr))))))))
   · intro h
-    rcases h with h | h | h | h | ⟨hf, hc, p, hp, h⟩ | h | h
-    · exact ⟨_, _, (check_mem_startSteps fs r _ _).mpr (Or.inl ⟨rfl, rfl⟩), h⟩
-    · exact ⟨_, _, (check_mem_startSteps fs r _ _).mpr (Or.inr (Or.inl ⟨rfl, rfl⟩)), h⟩
-    · exact ⟨_, _, (check_mem_startSteps fs r _ _).mpr (Or.inr (Or.inr (Or.inl ⟨rfl, rfl⟩))), h⟩
-    · exact ⟨_, _, (check_mem_startSteps fs r _ _).mpr (Or.inr (Or.inr (Or.inr (Or.inl ⟨rfl, rfl⟩)))), h⟩
-    · exact ⟨_, _, (check_mem_startSteps fs r _ _).mpr (Or.inr (Or.inr (Or.inr (Or.inr (Or.inl ⟨hf, hc, p, hp, rfl, rfl⟩))))), h⟩
-    · exact ⟨_, _, (check_mem_startSteps fs r _ _).mpr (Or.inr (Or.inr (Or.inr (Or.inr (Or.inr (Or.inl ⟨rfl, rfl⟩)))))), h⟩
-    · exact ⟨_, _, (check_mem_startSteps fs r _ _).mpr (Or.inr (Or.inr (Or.inr (Or.inr (Or.inr (Or.inr ⟨rfl, rfl⟩)))))), h⟩
+    have mem := fun n res => (check_mem_startSteps fs r n res).mpr
+    rcases h with h | h | h | h | h | h | h | ⟨hf, hc, p, hp, h⟩ | h | h
+    · exact ⟨_, _, mem _ _ (Or.inl ⟨rfl, rfl⟩), h⟩
+    · exact ⟨_, _, mem _ _ (Or.inr (Or.inl ⟨rfl, rfl⟩)), h⟩
+    · exact ⟨_, _, mem _ _ (Or.inr (Or.inr (Or.inl ⟨rfl, rfl⟩))), h⟩
+    · exact ⟨_, _, mem _ _ (Or.inr (Or.inr (Or.inr (Or.inl ⟨rfl, rfl⟩)))), h⟩
+    · exact ⟨_, _, mem _ _ (Or.inr (Or.inr (Or.inr (Or.inr (Or.inl ⟨rfl, rfl⟩))))), h⟩
+    · exact ⟨_, _, mem _ _ (Or.inr (Or.inr (Or.inr (Or.inr (Or.inr (Or.inl ⟨rfl, rfl⟩)))))), h⟩
+    · exact ⟨_, _, mem _ _ (Or.inr (Or.inr (Or.inr (Or.inr (Or.inr (Or.inr (Or.inl ⟨rfl, rfl⟩))))))), h⟩
+    · exact ⟨_, _, mem _ _ (Or.inr (Or.inr (Or.inr (Or.inr (Or.inr (Or.inr (Or.inr (Or.inl ⟨hf, hc, p, hp, rfl, rfl⟩)))))))), h⟩
+    · exact ⟨_, _, mem _ _ (Or.inr (Or.inr (Or.inr (Or.inr (Or.inr (Or.inr (Or.inr (Or.inr (Or.inl ⟨rfl, rfl⟩))))))))), h⟩
+    · exact ⟨_, _, mem _ _ (Or.inr (Or.inr (Or.inr (Or.inr (Or.inr (Or.inr (Or.inr (Or.inr (Or.inr ⟨rfl, rfl⟩))))))))), h⟩
 
 /-- **An executor combined with `parallel=False`.** -/
 theorem C12_reject_executor (fs : List MFunc) (r : Req) (he : r.executor = true) (hp : r.parallel = false) :
     Refused (startMap fs r).2 := (C12_startMap_iff fs r).mpr (Or.inl ⟨he, hp⟩)
 
-/-- **Unknown storage name.** -/
-theorem C12_reject_unknown_storage (fs : List MFunc) (r : Req) (h : r.storage ∉ storageRegistry) :
-    Refused (startMap fs r).2 := (C12_startMap_iff fs r).mpr (Or.inr (Or.inr (Or.inr (Or.inl h))))
+/-- **Unknown storage name**: some registry name the `storage=` argument mentions (the string itself, or any value of the
+    dictionary form) is not registered. -/
+theorem C12_reject_unknown_storage (fs : List MFunc) (r : Req) (n : String) (hn : n ∈ r.storage.names) (h : n ∉ storageRegistry) :
+    Refused (startMap fs r).2 := (C12_startMap_iff fs r).mpr (Or.inr (Or.inr (Or.inr (Or.inr (Or.inr (Or.inl ⟨n, hn, h⟩))))))
+
+/-- **A `storage=` dictionary that resolves no storage for a mapped output**: no `""` default and no entry for a function whose
+    MapSpec has inputs (`RunInfo.storage_class` would raise in `init_store`, after the folder was written: DF-37). -/
+theorem C12_reject_storage_default (fs : List MFunc) (r : Req) (d : List (String × String)) (hs : r.storage = .perOutput d)
+    (hd : alookup d "" = none) (f : MFunc) (hf : f ∈ fs) (ms : MSpec) (hms : f.mapspec = some ms) (hin : ms.inputs ≠ [])
+    (hk : alookup d (outputKey f) = none) : Refused (startMap fs r).2 := by
+  refine (C12_startMap_iff fs r).mpr (Or.inr (Or.inr (Or.inr (Or.inr (Or.inr (Or.inr (Or.inl ⟨f, ?_⟩)))))))
+  rw [hs]
+  simp only [storageUnresolved, hd, Option.isSome_none, Bool.false_eq_true, ↓reduceIte, List.mem_filter, hms, hk, Option.isNone_none,
+    Bool.and_true, Bool.not_eq_eq_eq_not, Bool.not_true, List.isEmpty_eq_false_iff]
+  exact ⟨hf, hin⟩
+
+/-- **An unknown name in `output_names=`**: neither an output nor a root argument of the pipeline. -/
+theorem C12_reject_unknown_output_name (fs : List MFunc) (r : Req) (ns : List String) (hns : r.outputNames = some ns) (n : String)
+    (hn : n ∈ ns) (h : n ∉ nodeNames fs) : Refused (startMap fs r).2 :=
+  (C12_startMap_iff fs r).mpr (Or.inr (Or.inl ⟨ns, hns, n, hn, h⟩))
+
+/-- **`fixed_indices` that `_validate_fixed_indices` (C06's model `PF.Pieces.validateFixed`) refuses**: an index out of bounds
+    for an input array, an axis name no MapSpec knows, a reduced axis. -/
+theorem C12_reject_fixed_indices (fs : List MFunc) (r : Req)
+    (h : Refused (PF.Pieces.validateFixed fs (normInputs r.inputs) r.fixed)) : Refused (startMap fs r).2 :=
+  (C12_startMap_iff fs r).mpr (Or.inr (Or.inr (Or.inr (Or.inr (Or.inl h)))))
+
+/-- … in particular **an axis name in `fixed_indices` that no MapSpec of the pipeline mentions** (whatever else is wrong). -/
+theorem C12_reject_fixed_unknown_axis (fs : List MFunc) (r : Req) (fx : List (String × PF.Pieces.Sel)) (hfx : r.fixed = some fx)
+    (kv : String × PF.Pieces.Sel) (hkv : kv ∈ fx) (h : kv.1 ∉ PF.Pieces.knownAxes (PF.Pieces.mapspecAxes fs)) :
+    Refused (startMap fs r).2 := by
+  apply C12_reject_fixed_indices
+  rw [hfx]
+  unfold PF.Pieces.validateFixed
+  simp only [bind, Except.bind]
+  cases PF.Pieces.checkInputs (normInputs r.inputs) fx (PF.Pieces.mapspecAxes fs) with
+  | error e => exact ⟨e, rfl⟩
+  | ok u =>
+    have : (fx.any fun kv => !(PF.Pieces.knownAxes (PF.Pieces.mapspecAxes fs)).contains kv.1) = true := by
+      simp only [List.any_eq_true, Bool.not_eq_eq_eq_not, Bool.not_true]
+      exact ⟨kv, hkv, by simpa [List.contains_iff_mem] using h⟩
+    simp only [this, ↓reduceIte]
+    exact ⟨_, rfl⟩
 
 /-- **Missing input**: a root argument with neither an input nor a default. -/
 theorem C12_reject_missing_input (fs : List MFunc) (r : Req) (p : String) (hp : p ∈ rootArgs fs)
     (hi : p ∉ akeys r.inputs) (hd : p ∉ akeys (pdefaults fs)) : Refused (startMap fs r).2 := by
-  refine (C12_startMap_iff fs r).mpr (Or.inr (Or.inl ?_))
+  refine (C12_startMap_iff fs r).mpr (Or.inr (Or.inr (Or.inl ?_)))
   unfold validateInputs
   simp only [bind, Except.bind]
   cases hfl : (rootArgs fs).filter (fun x => !(akeys r.inputs ++ akeys (pdefaults fs)).contains x) with
@@ -216,7 +284,7 @@ theorem C12_reject_missing_input (fs : List MFunc) (r : Req) (p : String) (hp : 
 /-- **Surplus input**: an input (or default) that is not a root argument of the pipeline. -/
 theorem C12_reject_surplus_input (fs : List MFunc) (r : Req) (k : String) (hk : k ∈ akeys r.inputs ++ akeys (pdefaults fs))
     (hr : k ∉ rootArgs fs) : Refused (startMap fs r).2 := by
-  refine (C12_startMap_iff fs r).mpr (Or.inr (Or.inl ?_))
+  refine (C12_startMap_iff fs r).mpr (Or.inr (Or.inr (Or.inl ?_)))
   unfold validateInputs
   simp only [bind, Except.bind]
   cases hfl : (rootArgs fs).filter (fun x => !(akeys r.inputs ++ akeys (pdefaults fs)).contains x) with
@@ -231,17 +299,16 @@ theorem C12_reject_surplus_input (fs : List MFunc) (r : Req) (k : String) (hk : 
 
 /-- **A list where an array of rank > 1 is expected.** -/
 theorem C12_reject_list_for_nd (fs : List MFunc) (r : Req) (h : listForNd fs r.inputs = true) : Refused (startMap fs r).2 :=
-  (C12_startMap_iff fs r).mpr (Or.inr (Or.inr (Or.inr (Or.inr (Or.inr (Or.inl h))))))
+  (C12_startMap_iff fs r).mpr (Or.inr (Or.inr (Or.inr (Or.inr (Or.inr (Or.inr (Or.inr (Or.inr (Or.inl h)))))))))
 
 /-- **Array inputs whose rank or zipped dimensions contradict the MapSpecs** (and every other way `map_shapes` fails: a
     non-array for a mapped input, a missing internal shape): whenever the shape computation of C01's model (`PF.Map.mapShapes`,
     i.e. `MapSpec.shape` per function in topological order) refuses, so does the start of `map`.
-    PARTIAL: the hypothesis is the refusal of the shape computation itself; that a rank mismatch / unequal zipped dimensions of a
-    root input make `mapShapes` refuse is not proved for all pipelines here (it needs loop invariants for the `for` loops of
-    `PF.Map.mapShapes`/`mspecShape`); it is witnessed by the `decide` examples below and checked by the correspondence
-    (operators change-rank, resize-axis, list-2d, scalar-for-array, internal-shape). -/
-theorem C12_reject_shapes_partial (fs : List MFunc) (r : Req) (h : Refused (shapesOf fs r.inputs r.internal)) : Refused (startMap fs r).2 :=
-  (C12_startMap_iff fs r).mpr (Or.inr (Or.inr (Or.inr (Or.inr (Or.inr (Or.inr h))))))
+    (Formerly `C12_reject_shapes_partial`.)  The missing half — a rank mismatch / unequal zipped dimensions of root inputs make
+    `mapShapes` refuse, for all pipelines, and `mapShapes` refuses **iff** an explicit `ShapeFault` holds — is proved in
+    `Props/C12Shapes.lean`: `C12_mapShapes_refused_iff`, `C12_reject_rank`, `C12_reject_zipped`, `C12_reject_not_array`. -/
+theorem C12_reject_shapes (fs : List MFunc) (r : Req) (h : Refused (shapesOf fs r.inputs r.internal)) : Refused (startMap fs r).2 :=
+  (C12_startMap_iff fs r).mpr (Or.inr (Or.inr (Or.inr (Or.inr (Or.inr (Or.inr (Or.inr (Or.inr (Or.inr h)))))))))
 
 /-- **Complete**: a request none of whose checks fails is accepted (the other half of `C12_startMap_iff`, stated on its own). -/
 theorem C12_complete (fs : List MFunc) (r : Req) (h : ¬ MapFault fs r) : (startMap fs r).2 = .ok () := by
@@ -328,5 +395,38 @@ example : startMap [zipped] (req [("x", .arr [2] [.int 1, .int 2]), ("w", .arr [
 example : listForNd [{ f "g" ["x"] "y" with mapspec := some (MSpec.mk [sp "x" [some "i", none]] [sp "y" [some "i"]]) }]
     [("x", .tup [.tup [.int 1]])] = true := by decide
 example : startMap [mapped "g" "x" "y"] { req [("x", .int 3)] with cleanup := true } = ([.cleanup], .error ⟨.type, "map-shapes"⟩) := by decide
+
+/-! #### round 2: dictionary-valued `storage=`, `output_names=`, `fixed_indices=` -/
+private def x2 : List (String × Val) := [("x", .arr [2] [.int 1, .int 2])]
+example : startMap [mapped "g" "x" "y"] { req x2 with storage := .perOutput [("y", "nope")] } = ([], .error ⟨.value, "unknown-storage"⟩) := by
+  decide
+example : startMap [mapped "g" "x" "y"] { req x2 with storage := .perOutput [("q", "dict")] } = ([], .error ⟨.value, "storage-default"⟩) := by
+  decide
+example : (startMap [mapped "g" "x" "y"] { req x2 with storage := .perOutput [("", "dict")] }).2 = .ok () := by decide
+example : (startMap [mapped "g" "x" "y"] { req x2 with storage := .perOutput [("y", "file_array")] }).2 = .ok () := by decide
+/-- a function called once (no MapSpec inputs) needs no storage entry -/
+example : (startMap [f "h" ["x"] "z"] { req [("x", .int 1)] with storage := .perOutput [] }).2 = .ok () := by decide
+example : Refused (startMap [mapped "g" "x" "y"] { req x2 with storage := .perOutput [("q", "dict")] }).2 :=
+  C12_reject_storage_default _ _ [("q", "dict")] rfl (by decide) (mapped "g" "x" "y") List.mem_cons_self _ rfl (by decide) (by decide)
+example : Refused (startMap [mapped "g" "x" "y"] { req x2 with storage := .perOutput [("y", "dict"), ("", "Dict")] }).2 :=
+  C12_reject_unknown_storage _ _ "Dict" (by decide) (by decide)
+example : startMap [mapped "g" "x" "y"] { req x2 with outputNames := some ["y", "zz"] } = ([], .error ⟨.key, "output-names"⟩) := by decide
+example : (startMap [mapped "g" "x" "y"] { req x2 with outputNames := some ["y"] }).2 = .ok () := by decide
+example : Refused (startMap [mapped "g" "x" "y"] { req x2 with outputNames := some ["y", "zz"] }).2 :=
+  C12_reject_unknown_output_name _ _ ["y", "zz"] rfl "zz" (by decide) (by decide)
+example : startMap [mapped "g" "x" "y"] { req x2 with fixed := some [("q", .idx 0)] } = ([], .error ⟨.value, "fixed-indices"⟩) := by decide
+example : startMap [mapped "g" "x" "y"] { req x2 with fixed := some [("i", .idx 7)] } = ([], .error ⟨.index, "fixed-indices"⟩) := by decide
+example : (startMap [mapped "g" "x" "y"] { req x2 with fixed := some [("i", .idx 1)] }).2 = .ok () := by decide
+/-- a reduced axis: `h` takes `y` whole -/
+example : startMap [mapped "g" "x" "y", f "h" ["y"] "z"] { req x2 with fixed := some [("i", .idx 0)] }
+    = ([], .error ⟨.value, "fixed-indices"⟩) := by decide
+example : Refused (startMap [mapped "g" "x" "y"] { req x2 with fixed := some [("q", .idx 0)] }).2 :=
+  C12_reject_fixed_unknown_axis _ _ [("q", .idx 0)] rfl ("q", .idx 0) List.mem_cons_self (by decide)
+
+/-- malformed MapSpecs: `x[i] -> y[:]`, `x[i, j] -> y[i]` -/
+example : construct [{ f "g" ["x"] "y" with mapspec := some (MSpec.mk [sp "x" [some "i"]] [sp "y" [none]]) }]
+    = .error ⟨.value, "mapspec-malformed"⟩ := by decide
+example : Refused (construct [{ f "g" ["x"] "y" with mapspec := some (MSpec.mk [sp "x" [some "i", some "j"]] [sp "y" [some "i"]]) }]) :=
+  C12_reject_mapspec_malformed _ _ List.mem_cons_self _ rfl (Or.inr (Or.inr ⟨"j", by decide, by decide⟩))
 
 end PF.C12
